@@ -360,8 +360,13 @@ impl Model {
             }
             DKind::CloneMulti { nodes, dest_dom } => {
                 let dd = *dest_dom as usize;
-                if dd >= self.roots.len() || nodes.is_empty() {
+                if dd >= self.roots.len() {
                     return None;
+                }
+                if nodes.is_empty() {
+                    // cloning nothing: no effect, returns no referents
+                    eff.entering = Some((dd, vec![]));
+                    return Some(eff);
                 }
                 let mut src_dom = None;
                 let mut total = 0;
@@ -551,6 +556,12 @@ impl DomSim {
                     props.push((k, v));
                 }
             }
+            if !uid_mode && r.chance(1, 40) {
+                // A property that is merely *named* UniqueId (documented to be ignored
+                // by the bookkeeping; from_raw, which documents a panic for it, is
+                // not generated for DOMs that hold one).
+                props.push(("UniqueId".into(), if r.chance(1, 2) { ValSpec::Str("not-an-id".into()) } else { ValSpec::I32(7) }));
+            }
             if uid_mode && r.chance(2, 3) {
                 let u = *r.pick(UID_POOL);
                 props.push(("UniqueId".into(), ValSpec::Uid(u.0, u.1, u.2)));
@@ -645,8 +656,11 @@ impl DomSim {
                     let src = model.nodes[&first].dom;
                     let cands: Vec<NodeId> = model.dom_nodes(src);
                     let mut nodes = vec![first];
+                    if r.chance(1, 40) {
+                        nodes.clear();
+                    }
                     let allow_overlap = r.chance(1, 4);
-                    for _ in 0..r.below(3) {
+                    for _ in 0..(if nodes.is_empty() { 0 } else { r.below(3) }) {
                         let c = *r.pick(&cands);
                         if allow_overlap || nodes.iter().all(|m| !model.is_in_subtree(*m, c) && !model.is_in_subtree(c, *m)) {
                             nodes.push(c);
@@ -658,7 +672,15 @@ impl DomSim {
                     }
                     DKind::CloneMulti { nodes, dest_dom: dd as u8 }
                 }
-                8 => DKind::RawRoundTrip { dom: pick_dom(r) },
+                8 => {
+                    let dom = pick_dom(r);
+                    // from_raw documents a panic for a UniqueId property of another type
+                    let has_wrong_uid = model.nodes.values().any(|m| m.dom == dom as usize && matches!(m.props.get("UniqueId"), Some(MProp::Val(_))));
+                    if has_wrong_uid {
+                        continue;
+                    }
+                    DKind::RawRoundTrip { dom }
+                }
                 9 => DKind::EncodeDecode { dom: pick_dom(r), fmt: r.below(2) as u8 },
                 11 => {
                     let dom = pick_dom(r);
@@ -1154,7 +1176,7 @@ impl DomSim {
             // Real-side snapshot needed by the oracles.
             let src_dom_idx = match &op.kind {
                 DKind::Destroy { node } | DKind::Transfer { node, .. } | DKind::CloneWithin { node } | DKind::CloneInto { node, .. } => Some(world.model.nodes[node].dom),
-                DKind::CloneMulti { nodes, .. } => Some(world.model.nodes[&nodes[0]].dom),
+                DKind::CloneMulti { nodes, dest_dom } => Some(nodes.first().map(|n| world.model.nodes[n].dom).unwrap_or((*dest_dom as usize + 1) % n_doms)),
                 _ => None,
             };
             let mut dead: Vec<(usize, Ref)> = Vec::new();
@@ -1223,7 +1245,7 @@ impl DomSim {
                         returned_ref.push(src.clone_into_external(r, dst));
                     }
                     DKind::CloneMulti { nodes, dest_dom } => {
-                        let s = world_ref.model.nodes[&nodes[0]].dom;
+                        let s = nodes.first().map(|n| world_ref.model.nodes[n].dom).unwrap_or((*dest_dom as usize + 1) % world_ref.doms.len());
                         let refs: Vec<Ref> = nodes.iter().map(|n| world_ref.ref_of[n]).collect();
                         let (src, dst) = two_mut(&mut world_ref.doms, s, *dest_dom as usize);
                         returned_ref.extend(src.clone_multiple_into_external(&refs, dst));
@@ -1404,6 +1426,12 @@ impl DomSim {
                     }
                     ctx.count("aborted_histories");
                     ctx.count("histories_ended_by_model_drift(C10's business)");
+                    return;
+                }
+            }
+            if let DKind::CloneMulti { nodes, .. } = &op.kind {
+                if nodes.is_empty() && !returned.is_empty() && prop == "C11" {
+                    ctx.violate("clone|wrong-number-of-roots", format!("cloning an empty list returned {} referents", returned.len()));
                     return;
                 }
             }
